@@ -112,7 +112,7 @@ def main():
     lines, impl = [], []
 
     async def go():
-        for k in range(500 if not chk.thorough else 12000):
+        for k in range(500 if not chk.thorough else 60000):
             await run_case(chk, rng, lines, impl)
 
     asyncio.run(go())
